@@ -33,8 +33,9 @@ Proof.
   vm_compute. repeat split; discriminate.
 Qed.
 
-(* the same after the cleaner gave up (node down at all five retries: ticks 1, 6, 66, 366,
-   3966): the stale row is served until its TTL ends *)
+(* the same after the cleaner gave up (node down at every retry: with today's table ticks 1, 6,
+   66, 366, 3966; the witness ticks 200000 times so that it survives a changed table): the stale
+   row is served until its TTL ends *)
 Theorem coherence_refuted_after_give_up :
   exists c rows ops p t u v,
     all_disciplined c (init rows) ops = true /\
@@ -43,7 +44,7 @@ Theorem coherence_refuted_after_give_up :
     step c s (OTake p t) = (s, mkObs (RRow p u v) 0 0) /\ db_get p (db s) <> Some (u, v).
 Proof.
   exists (mkCfg 0 0 []), f7_rows,
-    [OTake 1 604800; OCFault 0 true; OExec 1 (Some (7, 42)) [KP 1; KU 7]; OClean 3966; OCFault 0 false],
+    [OTake 1 604800; OCFault 0 true; OExec 1 (Some (7, 42)) [KP 1; KU 7]; OClean 200000; OCFault 0 false],
     1, 100, 7, 41.
   vm_compute. repeat split; discriminate.
 Qed.
